@@ -49,7 +49,7 @@ def validate_traces(ctx, tdir, parts):
 
     def tl(name, path):
         return ctx.tlc("rtmp", "Trace_RtmpTxnConc", "Trace_RtmpTxnConc.cfg", name=name, files={"trace.ndjson": path}, workers=1,
-                       count_states=False, allow_fail=True, timeout=600, dfs=True)
+                       count_states=False, allow_fail=True, timeout=600, dfs=True, jopts=["-Xmx3g"])
     with ThreadPoolExecutor(max_workers=2) as ex:
         fi = ex.submit(tl, None, trace)
         fs = ex.submit(tl, "Trace_selftest", bad)
@@ -78,7 +78,8 @@ def run(ctx):
                 "responses (incl. a duplicated one, sent as soon as the request is complete in the transport) and the reader's read+lookup for 1-3 requests; "
                 "each is forced onto a real rtmp.Protocol with a gated transport (no sleeps; an independent chunk stream parser tells which write completes a "
                 "request) and every lookup outcome compared; sized: the schedules x request sizes below/around/far above a 4 KB write buffer x output chunk "
-                "sizes 128/4096/65536/1048576; stress: free-running writer/reader goroutines under -race with the peer answering from inside the completing transport "
+                "sizes 128/4096/65536/1048576; ids: the schedules x classes of transaction ids that are distinct AMF0 numbers but equal under a lossy conversion "
+                "(same integral part, < 1, 2^32 apart, equal as float32, around 2^53, beyond int64, adjacent doubles), every response decoded as ITS request's type; stress: free-running writer/reader goroutines under -race with the peer answering from inside the completing transport "
                 "write on a seeded fraction of requests; aim: one outstanding request, request i+1 sent a swept, feedback-centred delay after the transport "
                 "handed response i to the reader (with and without -race); recorded runs validated by TLC against Trace_RtmpTxnConc")
     ctx.exhaustive = True
@@ -93,10 +94,11 @@ def run(ctx):
     env = {"GORACE": "log_path=%s/race halt_on_error=0 exitcode=0" % racedir}
 
     if t == "quick":
-        gens = ["Gen_TxnConc.quick.cfg", "Gen_TxnConc_nodup.quick.cfg", "Gen_TxnConc_parts.quick.cfg", "Gen_TxnConc_sized.quick.cfg"]
+        gens = ["Gen_TxnConc.quick.cfg", "Gen_TxnConc_nodup.quick.cfg", "Gen_TxnConc_parts.quick.cfg", "Gen_TxnConc_sized.quick.cfg",
+                "Gen_TxnConc_ids.quick.cfg"]
     else:
         gens = ["Gen_TxnConc.thorough.cfg", "Gen_TxnConc_parts.quick.cfg", "Gen_TxnConc_parts.thorough.cfg",
-                "Gen_TxnConc_sized.quick.cfg", "Gen_TxnConc_sized.thorough.cfg"]
+                "Gen_TxnConc_sized.quick.cfg", "Gen_TxnConc_sized.thorough.cfg", "Gen_TxnConc_ids.quick.cfg", "Gen_TxnConc_ids.thorough.cfg"]
     # a transport write that fails (the only one / a later one of several), for a request re-using an outstanding id
     gens += ["Gen_TxnConc_fail.cfg", "Gen_TxnConc_failparts.quick.cfg"] + ([] if t == "quick" else ["Gen_TxnConc_failparts.cfg"])
 
@@ -112,14 +114,16 @@ def run(ctx):
         dict(cfg="MC_TxnConc_deviation.cfg", expect_violation="NoSpurious"),            # register-after-write
         dict(cfg="MC_TxnConc_dev_beforeflush.cfg", expect_violation="NoSpurious"),      # register-before-flush
         dict(cfg="MC_TxnConc_dev_lookupreset.cfg", expect_violation="NoSpurious"),      # lookup-then-reset
-    ] + ([dict(cfg="MC_TxnConc_dev_lookupreset_loss.cfg", expect_violation="NoLoss")] if t == "thorough" else []) + [dict(cfg=g, cases_to=os.path.join(ctx.out, "cases_%d.ndjson" % k)) for k, g in enumerate(gens)]
+        dict(cfg="MC_TxnConc_dev_lossykey.cfg", expect_violation="RightType"),          # lossy-key
+    ] + ([dict(cfg="MC_TxnConc_dev_lookupreset_loss.cfg", expect_violation="NoLoss"),
+          dict(cfg="MC_TxnConc_dev_lossykey_spurious.cfg", expect_violation="NoSpurious")] if t == "thorough" else []) + [dict(cfg=g, cases_to=os.path.join(ctx.out, "cases_%d.ndjson" % k)) for k, g in enumerate(gens)]
 
     def one(j):
         j = dict(j)
         count = j.pop("count", False)
-        info = ctx.tlc("rtmp", "MC_RtmpTxnConc", j.pop("cfg"), count_states=False, workers=2, **j)
+        info = ctx.tlc("rtmp", "MC_RtmpTxnConc", j.pop("cfg"), count_states=False, workers=2, jopts=["-Xmx2g"], **j)
         return count, info
-    with ThreadPoolExecutor(max_workers=6) as ex:
+    with ThreadPoolExecutor(max_workers=2) as ex:
         done = list(ex.map(one, jobs))
     for count, info in done:
         if count:
